@@ -20,7 +20,7 @@ from cv.trace import validate_trace
 LEVEL = "model_checking"
 
 
-def build(rng, exports, system, nt, ntv, weak=False):
+def build(rng, exports, system, nt, ntv, weak=False, soft=False):
     from cij.util import c_
     from cij.core.calculator import Calculator, CijVolumeBaseInterface
     while True:
@@ -37,12 +37,18 @@ def build(rng, exports, system, nt, ntv, weak=False):
             iso = isotropic_plus(exports["cubic"], rng, 0.0)
             pert = fillspec.invariant_vector(exports[system], rng, -0.6, 0.6)
             base = {k: iso[k] + pert[k] for k in KEYS21}
-        comp = {k: base[k] * field * (1.0 + (0.0 if weak else 0.01) * rng.normal(size=(nt, ntv))) for k in keys}
+        if soft:
+            # a very soft (but positive-definite) crystal: one shear stiffness is 1e-5 .. 1e-6 of the longitudinal ones
+            iso = isotropic_plus(exports["cubic"], rng, 0.0)
+            base = {k: iso[k] for k in KEYS21}
+            keys = list(ORTHO9)
+            base[(5, 5)] = base[(1, 1)] * 10 ** rng.uniform(-6.0, -5.0)
+        comp = {k: base[k] * field * (1.0 + (0.0 if (weak or soft) else 0.01) * rng.normal(size=(nt, ntv))) for k in keys}
         C = numpy.zeros((nt, ntv, 6, 6))
         for (i, j), a in comp.items():
             C[:, :, i - 1, j - 1] = a
             C[:, :, j - 1, i - 1] = a
-        pd = numpy.all(numpy.linalg.eigvalsh(C) > 1e-6, axis=-1)
+        pd = numpy.all(numpy.linalg.eigvalsh(C) > (1e-9 if soft else 1e-6), axis=-1)
         if pd.mean() > 0.9:
             break
     au = 1.0 / consts.RY_BOHR3_TO_GPA
@@ -77,7 +83,8 @@ def main(ctx, replay=None):
     for system in fillspec.SYSTEMS:
         for fi in range(nfields):
             nt, ntv = int(rng.integers(2, 5)), int(rng.integers(3, 7))
-            stub, vb, C, pd, keys, v = build(rng, exports, system, nt, ntv, weak=(fi == nfields - 1 and system not in ("cubic", "orthorhombic")))
+            soft = bool(fi == 0 and system in ("orthorhombic", "monoclinic", "triclinic"))
+            stub, vb, C, pd, keys, v = build(rng, exports, system, nt, ntv, weak=(fi == nfields - 1 and system not in ("cubic", "orthorhombic")), soft=soft)
             case = {"system": system, "keys": ["%d%d" % k for k in keys], "mass": stub.elast_data.cellmass}
             ctx.count(case)
             sig = {"system": system}
@@ -113,8 +120,8 @@ def main(ctx, replay=None):
             for n, val in (("vs", numpy.sqrt(gh / rho)), ("vp", numpy.sqrt((kh + 4.0 / 3.0 * gh) / rho))):
                 if not numpy.allclose(rep[n][pd], val[pd], rtol=1e-7):
                     ctx.violation(f"{system}: {n} = {rep[n][pd][0]!r} km/s, rho v^2 relation gives {val[pd][0]!r}", case, {**sig, "clause": n})
-            # ---- trace records -------------------------------------------------------------------------
-            for it in range(nt):
+            # ---- trace records (not for the soft crystals: their compliances do not fit the integer scaling of the trace format) ----
+            for it in range(nt if not soft else 0):
                 for iv in range(ntv):
                     ci = numpy.rint(C[it, iv] * 10).astype(int)
                     si = numpy.rint(S[it, iv] * 1e6).astype(int)
